@@ -222,4 +222,55 @@ def undelKeyOrder : KeyOrder (Int × Nat) where
     · have : ¬ p.1 < q.1 := fun h => hn (Or.inl h)
       left; omega
 
+/-- keys of the delegation store: (delegator, validator, denom), lexicographic -/
+def delKeyOrder : KeyOrder (Nat × Nat × Nat) where
+  lt p q := p.1 < q.1 ∨ (p.1 = q.1 ∧ (p.2.1 < q.2.1 ∨ (p.2.1 = q.2.1 ∧ p.2.2 < q.2.2)))
+  irrefl p h := by rcases h with h | ⟨_, h | ⟨_, h⟩⟩ <;> omega
+  trans p q r h1 h2 := by
+    rcases h1 with h1 | ⟨e1, h1 | ⟨f1, h1⟩⟩ <;> rcases h2 with h2 | ⟨e2, h2 | ⟨f2, h2⟩⟩
+    · left; omega
+    · left; omega
+    · left; omega
+    · left; omega
+    · right; exact ⟨by omega, Or.inl (by omega)⟩
+    · right; exact ⟨by omega, Or.inl (by omega)⟩
+    · left; omega
+    · right; exact ⟨by omega, Or.inl (by omega)⟩
+    · right; exact ⟨by omega, Or.inr ⟨by omega, by omega⟩⟩
+  cmp_lt p q := by
+    show (compare p.1 q.1).then ((compare p.2.1 q.2.1).then (compare p.2.2 q.2.2)) = .lt ↔ _
+    constructor
+    · intro h
+      cases hc : compare p.1 q.1 with
+      | lt => exact Or.inl ((compare_nat_lt _ _).mp hc)
+      | gt => rw [hc] at h; cases h
+      | eq =>
+        rw [hc] at h
+        refine Or.inr ⟨(compare_nat_eq _ _).mp hc, ?_⟩
+        simp only [Ordering.then] at h
+        cases hd : compare p.2.1 q.2.1 with
+        | lt => exact Or.inl ((compare_nat_lt _ _).mp hd)
+        | gt => rw [hd] at h; cases h
+        | eq => rw [hd] at h; exact Or.inr ⟨(compare_nat_eq _ _).mp hd, (compare_nat_lt _ _).mp h⟩
+    · intro h
+      rcases h with h | ⟨e, h | ⟨f, h⟩⟩
+      · rw [(compare_nat_lt _ _).mpr h]; rfl
+      · rw [(compare_nat_eq _ _).mpr e, (compare_nat_lt _ _).mpr h]; rfl
+      · rw [(compare_nat_eq _ _).mpr e, (compare_nat_eq _ _).mpr f]
+        exact (compare_nat_lt _ _).mpr h
+  total p q hne hn := by
+    by_cases he : p.1 = q.1
+    · have h2 : p.2 ≠ q.2 := fun h => hne (Prod.ext he h)
+      have hn2 : ¬ (p.2.1 < q.2.1 ∨ (p.2.1 = q.2.1 ∧ p.2.2 < q.2.2)) := fun h => hn (Or.inr ⟨he, h⟩)
+      right
+      refine ⟨he.symm, ?_⟩
+      by_cases hf : p.2.1 = q.2.1
+      · have h3 : p.2.2 ≠ q.2.2 := fun h => h2 (Prod.ext hf h)
+        have : ¬ p.2.2 < q.2.2 := fun h => hn2 (Or.inr ⟨hf, h⟩)
+        right; constructor <;> omega
+      · have : ¬ p.2.1 < q.2.1 := fun h => hn2 (Or.inl h)
+        left; omega
+    · have : ¬ p.1 < q.1 := fun h => hn (Or.inl h)
+      left; omega
+
 end Alliance
